@@ -1339,7 +1339,9 @@ func writeEvidence(prop, tier string, seed uint64, info *ScenarioInfo, b *build,
 			"reach_probes":                         probes,
 			"variants":                             variants,
 			"strategies":                           strategies,
-			"leaked_goroutine_runs":                leaked,
+			// a diagnostic, not a measure of work: what is still blocked when a bubble is torn
+			// down depends on the real scheduler after the simulation has ended
+			"post_run_teardown_note": fmt.Sprintf("%d run(s) ended with goroutines still blocked at bubble teardown (after the simulated run; not replay-relevant)", leaked),
 			"inconclusive_runs_budget_exhausted":   inconcl,
 			"adopted_goroutines":                   adopted,
 			"real_code":                            info.Real,
